@@ -852,6 +852,9 @@ def c11(run):
     for c in runs:
         run.count(("limit", json.dumps(c["facts"]), json.dumps(c["rules"]), c["mf"], c["mi"]))
     validate_dl(run, driver, [], runs, "L2 limits")
+    # limits given to an authorizer are honoured in the authority-level evaluation AND in every per-block world, and a limit
+    # error is not healed by calling Authorize again (Authz.tla RunStatus / HitsLimit, configuration AuthzMC_lim)
+    authz_check(run, "C02", [("AuthzMC", "AuthzMC_lim", "L1 Authz theorems under 4 run-limit configurations + export", {})])
 
 
 def replay_leak(run, body):
